@@ -13,6 +13,11 @@
 //   werr <cls> <call#> <errno> <times>  same for write calls
 //   reof <cls> <nbytes>                 the stream ends after nbytes have been delivered
 //   openerr <cls> <errno>               opening the file of class src|out fails
+//   env <NAME> <value>                  getenv(NAME) returns <value> (rest of the line)
+//   unenv <NAME>                        getenv(NAME) returns NULL
+//
+// getenv() calls of the program are logged (op=getenv cls=<NAME> ret=1|0), so that the simulator
+// learns from the fault-free run which variables the program looks at and can enumerate them.
 //
 //   cls := 0 | 1 | 2 | src | out
 //
@@ -59,6 +64,9 @@ static struct errrule werr[NCLS][MAXERR]; static int nwerr[NCLS];
 static long rcalls[NCLS], wcalls[NCLS];
 static long reof[NCLS]; static int have_reof[NCLS]; static long rdelivered[NCLS];
 static int openerr[NCLS];
+
+#define MAXENV 32
+static char envname[MAXENV][64]; static char envval[MAXENV][192]; static int envunset[MAXENV]; static int nenv = 0;
 
 static long raw_write(int fd, const void *b, size_t n) { return syscall(SYS_write, fd, b, n); }
 static long raw_read(int fd, void *b, size_t n) { return syscall(SYS_read, fd, b, n); }
@@ -117,6 +125,19 @@ static void parse_chunks(const char *s, long *arr, int *n, int *star) {
 }
 
 static void parse_line(char *line) {
+  if (!strncmp(line, "env ", 4) || !strncmp(line, "unenv ", 6)) {
+    int un = line[0] == 'u';
+    char *q = line + (un ? 6 : 4);
+    if (nenv >= MAXENV) return;
+    int i = 0; while (*q && *q != ' ' && i < 63) envname[nenv][i++] = *q++;
+    envname[nenv][i] = 0;
+    if (*q == ' ') q++;
+    i = 0; while (!un && *q && i < 191) envval[nenv][i++] = *q++;
+    envval[nenv][i] = 0;
+    envunset[nenv] = un;
+    nenv++;
+    return;
+  }
   char *tok[6]; int nt = 0; char *p = line;
   while (*p && nt < 6) {
     while (*p == ' ') p++;
@@ -144,6 +165,26 @@ static char *getenv_raw(const char *name) {
   for (char **e = environ; *e; e++) if (!strncmp(*e, name, n) && (*e)[n] == '=') return *e + n + 1;
   return 0;
 }
+
+static void logenv(const char *name, int found) {
+  if (logfd < 0) return;
+  char line[160]; char *p = line;
+  p = fmt_str(p, "seq="); p = fmt_long(p, ++seqno);
+  p = fmt_str(p, " op=getenv cls=");
+  for (int i = 0; name[i] && i < 63; i++) *p++ = (name[i] == ' ' || name[i] == '\n') ? '?' : name[i];
+  p = fmt_str(p, " req=0 ret="); p = fmt_long(p, found);
+  p = fmt_str(p, " errno=0\n");
+  raw_write(logfd, line, p - line);
+}
+
+char *getenv(const char *name) {
+  if (!active || !name) return getenv_raw(name ? name : "");
+  for (int i = 0; i < nenv; i++) if (!strcmp(envname[i], name)) { logenv(name, !envunset[i]); return envunset[i] ? 0 : envval[i]; }
+  char *r = getenv_raw(name);
+  logenv(name, r != 0);
+  return r;
+}
+char *secure_getenv(const char *name) { return getenv(name); }
 
 __attribute__((constructor)) static void simio_init(void) {
   for (int i = 0; i < 1024; i++) fdcls[i] = -1;
